@@ -79,7 +79,7 @@ func (n *Nodis) Clear() {
 		log.Println("Clear: ", err)
 	}
 	// every watched key has just changed (it is gone)
-	n.store.watchMu.RLock()
+	n.store.watchMu.Lock()
 	n.store.watchedKeys.Scan(func(key string, clients *list.LinkedListG[*redis.Conn]) bool {
 		clients.ForRange(func(c *redis.Conn) bool {
 			c.WatchKeys.Set(key, true)
@@ -87,7 +87,7 @@ func (n *Nodis) Clear() {
 		})
 		return true
 	})
-	n.store.watchMu.RUnlock()
+	n.store.watchMu.Unlock()
 }
 
 func (n *Nodis) notify(f func() []patch.Op) {
